@@ -10,9 +10,11 @@
        ids, declares tables before use and closes every pipeline with a Select of the declared arity -- i.e. emits a
        `closed` RQ, which is all a back end needs for its lookups.  Visibility (clause 2 in its narrow form) depends on
        the resolver's scoping and is not a consequence of the machine; it is the per-program part.
-   Full statement "forall programs p, resolver p = Ok q -> rq_wf q = true" is FALSE of the unchanged tree
-   (known findings C16-F1, C16-F2: the carried sort of Take / Window names an id that is not visible, even one of
-   another pipeline); c16_finding_* below are the concrete RQs, the relaxed predicate rq_wf_lax is what holds. *)
+   Full statement "forall programs p, resolver p = Ok q -> rq_wf q = true" is FALSE of the current tree
+   (open findings C16-F1: the carried sort of Take / Window names an id of its own relation that is no longer visible;
+   C16-F4: an id of a sub-pipeline with duplicate column names escapes un-redirected; C16-F3 is a Lowerer panic).
+   c16_finding_* below are the concrete RQs; rq_wf_lax is what holds modulo F1.  C16-F2 (carried sort naming an id of
+   ANOTHER relation) was repaired in /repo (8f24a64) and is no longer tolerated: c16_regression_f2_*. *)
 From Coq Require Import List NArith Bool.
 From PV Require Import Lib.ListX Model.Rq Model.RqWf Model.Lowerer Proofs.RqWfProofs Proofs.LowererProofs.
 Import ListNotations.
@@ -42,10 +44,10 @@ Theorem wf_defined_exactly_once : forall q, rq_wf_lax q = true -> NoDup (all_def
 Proof. exact wf_lax_defs_nodup. Qed.
 Print Assumptions wf_defined_exactly_once.
 
-Theorem wf_uses_visible : forall defs w decl p1 t p2 vis,
-  pipeline_diags defs w decl vis (p1 ++ t :: p2) = [] ->
-  incl (direct_uses t) (vis_after defs w decl vis p1)
-  /\ (forall sd r f, t = TJoin sd r f -> incl (expr_cids f) (vis_after defs w decl vis p1 ++ tref_cids r)).
+Theorem wf_uses_visible : forall defs ldefs w decl p1 t p2 vis,
+  pipeline_diags defs ldefs w decl vis (p1 ++ t :: p2) = [] ->
+  incl (direct_uses t) (vis_after defs ldefs w decl vis p1)
+  /\ (forall sd r f, t = TJoin sd r f -> incl (expr_cids f) (vis_after defs ldefs w decl vis p1 ++ tref_cids r)).
 Proof. exact strict_uses_visible. Qed.
 Print Assumptions wf_uses_visible.
 
@@ -160,12 +162,33 @@ Example c16_finding_f1_sort_carried_past_select :
   rq_diags finding_f1 = [DNotVisible 1 STakeSort 0] /\ rq_wf finding_f1 = false /\ rq_wf_lax finding_f1 = true.
 Proof. vm_compute. auto. Qed.
 
-(* C16-F2  `from t | sort a | join (from u | select {id} | take 8) (==id)` : the Take of the joined sub-pipeline
-   (table 2) is sorted by column 0, which belongs to the main pipeline *)
-Definition finding_f2 : rq :=
+(* C16-F2 (FIXED in /repo by 8f24a64 "the carried sort does not leak into (or out of) the relational arguments of
+   join/append/loop"): what the implementation used to emit for
+   `from t | sort a | join (from u | select {id} | take 8) (==id)` -- the Take of the joined sub-pipeline (table 2) sorted
+   by column 0, which belongs to the main pipeline.  Kept as a regression shape: it is NOT tolerated by rq_wf_lax (the id
+   is foreign to the relation that uses it), so a reappearance is reported as a violation. *)
+Definition regression_f2 : rq :=
   (mkRq [(mkTable 0 None (mkRel (KExternRef [[117]]) [(RSingle (Some [105;100])); RWildcard])); (mkTable 1 None (mkRel (KExternRef [[116]]) [(RSingle (Some [97])); (RSingle (Some [105;100])); RWildcard])); (mkTable 2 None (mkRel (KPipeline [(TFrom (mkTRef 0 [((RSingle (Some [105;100])), 3); (RWildcard, 4)] (Some [117]))); (TSelect [3]); (TTake (None, (Some ELit)) [] [(Asc, 0)]); (TSelect [3])]) [(RSingle (Some [105;100]))]))] (mkRel (KPipeline [(TFrom (mkTRef 1 [((RSingle (Some [97])), 0); ((RSingle (Some [105;100])), 1); (RWildcard, 2)] (Some [116]))); (TSort [(Asc, 0)]); (TJoin JInner (mkTRef 2 [((RSingle (Some [105;100])), 5)] None) (ENode (KOp [115;116;100;46;101;113]) [(ERef 1); (ERef 5)])); (TSelect [0; 1; 2; 5])]) [(RSingle (Some [97])); (RSingle (Some [105;100])); RWildcard; (RSingle (Some [105;100]))])).
 
-Example c16_finding_f2_sort_leaks_across_pipelines :
-  rq_diags finding_f2 = [DNotVisible 2 STakeSort 0] /\ rq_wf finding_f2 = false /\ rq_wf_lax finding_f2 = true
-  /\ ~ In 0 (relation_defs (t_relation (nth 2 (q_tables finding_f2) (mkTable 0 None (mkRel (KLiteral [] 0) []))))).
-Proof. vm_compute. repeat split; auto. intros [H|[H|[]]]; discriminate. Qed.
+Example c16_regression_f2_sort_leak_is_rejected :
+  rq_diags regression_f2 = [DForeign 2 STakeSort 0] /\ rq_wf regression_f2 = false /\ rq_wf_lax regression_f2 = false.
+Proof. vm_compute. auto. Qed.
+
+(* C16-F4  `from t | join (from u | select {c, d} | join (from v | select {c}) true) true` : the closing Select of the main
+   pipeline names column 7, which is defined only inside table 4 (its instance has two columns for three declared ones) *)
+Definition finding_f4 : rq :=
+  (mkRq [ mkTable 0 None (mkRel (KExternRef [[118]]) [RSingle (Some [99]); RWildcard]);
+          mkTable 1 None (mkRel (KExternRef [[117]]) [RSingle (Some [99]); RSingle (Some [100]); RWildcard]);
+          mkTable 2 None (mkRel (KExternRef [[116]]) [RWildcard]);
+          mkTable 4 None (mkRel (KPipeline [TFrom (mkTRef 0 [(RSingle (Some [99]), 5); (RWildcard, 6)] (Some [118])); TSelect [5]; TSelect [5]]) [RSingle (Some [99])]);
+          mkTable 3 None (mkRel (KPipeline [TFrom (mkTRef 1 [(RSingle (Some [99]), 2); (RSingle (Some [100]), 3); (RWildcard, 4)] (Some [117]));
+                                            TSelect [2; 3]; TJoin JInner (mkTRef 4 [(RSingle (Some [99]), 7)] None) ELit; TSelect [2; 3; 7]])
+                                 [RSingle (Some [99]); RSingle (Some [100]); RSingle (Some [99])]) ]
+        (mkRel (KPipeline [TFrom (mkTRef 2 [(RWildcard, 0)] (Some [116]));
+                           TJoin JInner (mkTRef 3 [(RSingle (Some [99]), 8); (RSingle (Some [100]), 9)] None) ELit;
+                           TSelect [0; 8; 9; 7]])
+               [RWildcard; RSingle (Some [99]); RSingle (Some [100]); RSingle (Some [99])])).
+
+Example c16_finding_f4_foreign_id_in_select :
+  rq_diags finding_f4 = [DForeign 5 SSelect 7] /\ rq_wf_lax finding_f4 = false.
+Proof. vm_compute. auto. Qed.
